@@ -252,10 +252,12 @@ class SimSocket:
                 return b""
             if len(payload) <= bufsize:
                 c.rx.popleft()
-                out = payload
+                out = payload if isinstance(payload, bytes) else bytes(payload)
             else:
-                out = payload[:bufsize]
-                c.rx[0] = (DATA, payload[bufsize:])
+                # a memoryview keeps the repeated slicing of a multi-megabyte segment linear
+                mv = payload if isinstance(payload, memoryview) else memoryview(payload)
+                out = bytes(mv[:bufsize])
+                c.rx[0] = (DATA, mv[bufsize:])
             c.consumed += len(out)
             c.idle_streak = 0
             self._log("recv", bufsize, out)
@@ -424,7 +426,12 @@ class SimTLSSocket(SimSocket):
         # pull one whole record
         c = self.conn
         before = c.consumed if c else 0
-        rec = SimSocket.recv(self, 1 << 30)
+        try:
+            rec = SimSocket.recv(self, 1 << 30)
+        except BlockingIOError:
+            # what a non-blocking ssl.SSLSocket raises when no complete record is there yet
+            import ssl as _ssl
+            raise _ssl.SSLWantReadError(_ssl.SSL_ERROR_WANT_READ, "The operation did not complete (read)") from None
         if c is not None and c.max_recv_req == 1 << 30:
             c.max_recv_req = bufsize
         out, self._plain = rec[:bufsize], rec[bufsize:]
